@@ -1,8 +1,9 @@
 From Coq Require Import List NArith.
-From Tink Require Import XBase Untrusted UntrustedParams.
+From Tink Require Import XBase Untrusted UntrustedParams JsonKeyset JsonKeysetC14.
 Require Import ExtrOcamlBasic.
 Extraction "m.ml" xb_add xb_mul xb_div_eucl
   decode_keyset decode_encrypted read read_proto read_no_secrets handle_no_secrets
   read_encrypted any_unmodelled prim_ok out_prefix shown_prefix shown_req usable
   decode_template parse_params_full modelled_url
-  xread xread_proto xread_no_secrets xhandle_no_secrets xread_encrypted prim_ok_x xshown_prefix xshown_req.
+  xread xread_proto xread_no_secrets xhandle_no_secrets xread_encrypted prim_ok_x xshown_prefix xshown_req
+  json_keyset encrypted_of_json_text xread_json xread_json_no_secrets xread_json_encrypted.
